@@ -703,3 +703,15 @@ func (s *Sim) pick(en []*G) int {
 		return s.Choose(Schedule, n, "sched")
 	}
 }
+
+// CurrentID is the scheduler id of the calling goroutine (0 if unknown or no simulation).
+func CurrentID() int {
+	s := cur.Load()
+	if s == nil {
+		return 0
+	}
+	if g := s.lookup(false); g != nil {
+		return g.ID
+	}
+	return 0
+}
